@@ -402,7 +402,7 @@ def run_sync(res, kind, with_on_error, plans, script, wit):
         if it.status != "stopped":
             it.stop()
     t1 = time.time()
-    while observe.engine_threads() and time.time() - t1 < 1.5:
+    while observe.engine_threads() and time.time() - t1 < 8.0:
         time.sleep(0.005)
     final["leftover_threads"] = [t.name for t in observe.engine_threads()]
     for k in kids:
